@@ -579,24 +579,31 @@ func clDecodeItemDiscipline(c *Ctx) {
 	cnt := counter{}
 	// every use of the stream is a FULL read: a plain Read may return fewer
 	// bytes without an error (buffer boundaries), which desynchronises framing
-	rd := strip(fn.Params[3])
-	for _, r := range referrersOf(rd) {
-		in, ok := r.(ssa.Instruction)
-		if !ok {
-			continue
-		}
-		if _, isDbg := in.(*ssa.DebugRef); isDbg {
-			continue
-		}
-		full := false
-		if call, isCall := in.(*ssa.Call); isCall {
-			if f := call.Call.StaticCallee(); f != nil && (f.String() == "io.ReadFull" || f.String() == "io.ReadAtLeast") && call.Call.Args[0] == rd {
-				full = true
+	var checkStream func(rd ssa.Value, depth int)
+	checkStream = func(rd ssa.Value, depth int) {
+		for _, r := range referrersOf(rd) {
+			in, ok := r.(ssa.Instruction)
+			if !ok {
+				continue
 			}
+			if _, isDbg := in.(*ssa.DebugRef); isDbg {
+				continue
+			}
+			if prm := p.paramOfHelper(in, rd); prm != nil && depth < 3 {
+				checkStream(prm, depth+1) // handed to a private helper: its uses count
+				continue
+			}
+			full := false
+			if call, isCall := in.(*ssa.Call); isCall {
+				if f := call.Call.StaticCallee(); f != nil && (f.String() == "io.ReadFull" || f.String() == "io.ReadAtLeast") && call.Call.Args[0] == rd {
+					full = true
+				}
+			}
+			c.Check(full, fn, in, cnt.in(fn, "stream is consumed only through io.ReadFull"),
+				"the length prefix or payload is read with a call that may return fewer bytes than requested without an error: a frame straddling a buffer boundary is misread and the rest of the shard is garbage")
 		}
-		c.Check(full, fn, in, cnt.in(fn, "stream is consumed only through io.ReadFull"),
-			"the length prefix or payload is read with a call that may return fewer bytes than requested without an error: a frame straddling a buffer boundary is misread and the rest of the shard is garbage")
 	}
+	checkStream(fn.Params[3], 0)
 	if len(reads) < 2 {
 		c.Check(false, fn, nil, "header and payload are read with io.ReadFull", "fewer than two full reads found")
 		return
@@ -695,6 +702,12 @@ func clDecodeItemDiscipline(c *Ctx) {
 					return
 				}
 				seen[v] = true
+				if srcs := p.retSources(v); srcs != nil {
+					for _, e := range srcs {
+						walk(e)
+					}
+					return
+				}
 				switch x := v.(type) {
 				case *ssa.Phi:
 					for _, e := range x.Edges {
